@@ -4,6 +4,7 @@ Exit codes of a check:  0 held / only known findings, 1 VIOLATION, 2 machinery f
 """
 import fnmatch
 import json
+import math
 import os
 import re
 import shutil
@@ -287,7 +288,7 @@ class Run:
                   violations=len(self.violations))
         evdir = Path(os.environ.get("AOVERIF_EVIDENCE_DIR", str(VERIF / "evidence")))      # seedtool wdetect redirects this
         evdir.mkdir(exist_ok=True)
-        (evdir / (self.prop + ".json")).write_text(json.dumps(ev, indent=1, default=str) + "\n")
+        (evdir / (self.prop + ".json")).write_text(json.dumps(_strict(ev), indent=1, default=str) + "\n")
         status = "VIOLATED" if self.violations else "held"
         print("%s %s tier=%s seed=%d states=%d transitions=%d replayed=%d known=%d wall=%.1fs" %
               (self.prop, status, self.tier, self.seed, self.states, self.transitions, self.traces,
@@ -296,6 +297,17 @@ class Run:
 
 
 # --------------------------------------------------------------------------- helpers
+
+def _strict(o):
+    """evidence files are strict JSON: non-finite floats become strings"""
+    if isinstance(o, float) and not math.isfinite(o):
+        return repr(o)
+    if isinstance(o, dict):
+        return {str(k): _strict(v) for k, v in o.items()}
+    if isinstance(o, (list, tuple)):
+        return [_strict(v) for v in o]
+    return o
+
 
 def import_aotools():
     """Import aotools from the working tree of REPO (never from site-packages)."""
